@@ -126,6 +126,12 @@ func consUnits(thorough bool) []*unit {
 					}
 				}})
 			}
+			{
+				st, pm := st, pm
+				add(&unit{State: st, Peer: pm, Kind: "coupled", Msg: "groups", Est: 1500, gen: func(w *worker, u *unit, emit func(*caseT)) {
+					genCoupled(w, st, pm, emit)
+				}})
+			}
 			if pm == peerFresh {
 				st := st
 				// a peer that announced the next round and a proposal with a proof-of-lock round, then sends its
